@@ -18,7 +18,7 @@
 //   req <io> <oob> <auth> [<maxkey> <idist> <rdist>]   Pairing Request with exactly these fields   (C36 + C32)
 //   pdu <opcode> <lenclass 0 ok|1 short|2 long> <label>   any other SMP PDU from the central
 //        label: confirm(3): 0 honest, 1 honest for a wrong TK, 2 flipped bit
-//               random(4):  0 honest, 1 wrong (flipped bit)
+//               random(4):  0 honest, 1 wrong (legacy: flipped bit, does not match the confirm value; LESC: another nonce)
 //               public key(0x0c): 0 valid, 1 not on the curve
 //               dhkey check(0x0d): 0 honest Ea, 1 wrong (flipped bit)
 //   poll                                          l2cap_output
@@ -69,6 +69,7 @@ struct io_t {
         ++asked;
         if (sync_answer >= 0) r.yes_no_response(sync_answer != 0); else pending = &r;
     }
+    bool sm_pairing_yes_no() { ++asked; return sync_answer != 0; }   // interface documented for pairing_keyboard (unused by the library today)
     void sm_pairing_numeric_output(int v) { displayed = v; ++ndisplayed; }
     int sm_pairing_passkey() { return passkey; }
 } io;
@@ -366,9 +367,12 @@ struct harness {
             central.mconfirm_sent_honest = label == 0;
             break; }
         case 4: {
+            // LESC: the central's nonce Na is not committed to, so "wrong" just means another nonce, which an honest
+            // central then keeps using; legacy: Mrand that does not belong to the confirm value sent before
+            if (central.have_rsp && central.lesc && label == 1) central.na[7] ^= 0x04;
             uint128_t v = (central.have_rsp && central.lesc) ? central.na : central.mrand;
             if (!central.have_rsp) v = uint128_t{{1, 2, 3}};
-            if (label == 1) v[7] ^= 0x04;
+            if (label == 1 && !(central.have_rsp && central.lesc)) v[7] ^= 0x04;
             std::copy(v.begin(), v.end(), &in[1]);
             break; }
         case 0x0c: {
